@@ -226,8 +226,8 @@ class LLE(Equilibrium, phases='lL'):
             use_cache = (
                 use_cache 
                 and self._lle_chemicals == lle_chemicals
-                and T - self._T < self.temperature_cache_tolerance 
-                and (self._z_mol - z_mol < self.composition_cache_tolerance).all()
+                and abs(T - self._T) < self.temperature_cache_tolerance 
+                and (np.abs(self._z_mol - z_mol) < self.composition_cache_tolerance).all()
             )
             if use_cache:
                 K = self._K 
